@@ -8,6 +8,7 @@ __all__ = [
 ]
 
 import sys
+import unittest
 
 from testtools.testresult import ExtendedToOriginalDecorator
 
@@ -108,7 +109,7 @@ class RunTest:
             if self._exceptions:
                 # One or more caught exceptions, now trigger the test's
                 # reporting method for just one.
-                e = self._exceptions.pop()
+                e = self._pop_exception_to_report()
                 for exc_class, handler in self.handlers:
                     if isinstance(e, exc_class):
                         handler(self.case, self.result, e)
@@ -119,6 +120,32 @@ class RunTest:
         finally:
             result.stopTest(self.case)
         return result
+
+    def _pop_exception_to_report(self):
+        """Remove and return the caught exception that decides the outcome.
+
+        An exception that no handler claims is preferred, because it has to be
+        re-raised once reported. After that, anything other than a skip or an
+        expected failure is preferred over those, so that what a later stage
+        raises cannot downgrade an earlier failure or error. Among equals the
+        most recently caught one is used.
+        """
+        from testtools.testcase import _ExpectedFailure
+
+        benign = (
+            getattr(self.case, "skipException", unittest.SkipTest),
+            _ExpectedFailure,
+        )
+
+        def rank(e):
+            if not any(isinstance(e, exc_class) for exc_class, _ in self.handlers):
+                return 2
+            return 0 if isinstance(e, benign) else 1
+
+        ranks = [rank(e) for e in self._exceptions]
+        best = max(ranks)
+        index = max(i for i, r in enumerate(ranks) if r == best)
+        return self._exceptions.pop(index)
 
     def _run_core(self):
         """Run the user supplied test code."""
